@@ -65,23 +65,39 @@ func VerifH15() {
 	// per-connection callback behaviour, drawn up front (callbacks draw nothing,
 	// so the native replay can run the two connections concurrently)
 	st := [2]*vIsoState{{cols: vChoose(2), rows: nondetBool()}, {cols: vChoose(2), rows: nondetBool()}}
+	// a handler may build a fresh statement for every Parse, or keep ONE prepared
+	// statement (built once, e.g. per query text) and hand it to every
+	// connection: the library never required fresh ones
+	sharedStmt := vParam("SHAREDSTMT", 0) == 1 && nondetBool()
+	if sharedStmt {
+		vAssume(st[0].cols == st[1].cols)
+	}
+	run := func(ctx context.Context, dw DataWriter, params []Parameter) error {
+		me := st[RemoteAddress(ctx).(vAddr).id]
+		me.execs++
+		if me.rows {
+			row := make([]any, me.cols)
+			for i := range row {
+				row[i] = "v"
+			}
+			if err := dw.Row(row); err != nil {
+				return err
+			}
+		}
+		return dw.Complete("T")
+	}
+	var kept *PreparedStatement
+	if sharedStmt {
+		kept = NewStatement(run, WithColumns(vTextColumns(st[0].cols)))
+		vReach("one-prepared-statement-for-all-connections")
+	}
 	parse := func(ctx context.Context, query string) (PreparedStatements, error) {
 		me := st[RemoteAddress(ctx).(vAddr).id]
 		me.parses++
-		fn := func(ctx context.Context, dw DataWriter, params []Parameter) error {
-			me.execs++
-			if me.rows {
-				row := make([]any, me.cols)
-				for i := range row {
-					row[i] = "v"
-				}
-				if err := dw.Row(row); err != nil {
-					return err
-				}
-			}
-			return dw.Complete("T")
+		if kept != nil {
+			return Prepared(kept), nil
 		}
-		return Prepared(NewStatement(fn, WithColumns(vTextColumns(me.cols)))), nil
+		return Prepared(NewStatement(run, WithColumns(vTextColumns(me.cols)))), nil
 	}
 	// configuration: configured parameter map nil / empty but non-nil / one entry
 	var global Parameters
@@ -549,4 +565,53 @@ func VerifH15s() {
 	check("second-connection", c2.out, u2)
 	vAssert("each-connection-parsed-its-own-query", len(trace[0].queries) == 1 && len(trace[1].queries) == 1)
 	vReach("two-connections-accepted")
+}
+
+// ---------------------------------------------------------------------------
+// H15c — a graceful Close that begins while a statement function is in the
+// middle of its result set (C15, C16, C02). The handler has written a row when
+// another goroutine calls Server.Close; it then writes more rows and
+// completes. Whatever Close does while the command is still running, the
+// closing goroutine and the connection share no unsynchronised memory — two
+// writers into one connection's frame buffer is what tears a message apart —
+// and what the client receives is well-formed. Footprint lemma, replayed under
+// the race detector.
+// ---------------------------------------------------------------------------
+func VerifH15c() {
+	more := 1 + vChoose(2)
+	val := vSymText(1)
+	var srv *Server
+	parse := func(ctx context.Context, query string) (PreparedStatements, error) {
+		fn := func(ctx context.Context, dw DataWriter, params []Parameter) error {
+			if err := dw.Row([]any{string(val)}); err != nil {
+				return err
+			}
+			go srv.Close() //nolint
+			vPause()
+			for i := 0; i < more; i++ {
+				if err := dw.Row([]any{string(val)}); err != nil {
+					return err
+				}
+			}
+			return dw.Complete("T")
+		}
+		return Prepared(NewStatement(fn, WithColumns(vTextColumns(1)))), nil
+	}
+	var err error
+	srv, err = NewServer(parse, MessageBufferSize(64))
+	vAssert("newserver-ok", err == nil)
+	conn := vNewConn(vCat(vStartup(vKV([]byte("user"), []byte("u"))), vMsgBytes('Q', vCStr([]byte("s"))), vMsgBytes('X', nil)))
+	if vRaceMode() {
+		srv.serve(context.Background(), conn) //nolint
+		return
+	}
+	vFootBegin()
+	vOrigin("conn1")
+	srv.serve(context.Background(), conn) //nolint
+	vOrigin("")
+	vFootReport("no-unsynchronised-shared-access-between-close-and-a-running-command", "")
+	vAssert("wire-wellformed", vWireOK(conn.out))
+	t := vTypes(conn.out)
+	vAssert("rows-written-before-and-after-close-began-are-delivered", vCount(t, 'D') == 1+more)
+	vReach("close-began-during-a-result-set")
 }
